@@ -169,6 +169,12 @@ OnRecv(s, c, m) ==
                    ELSE [ok |-> FALSE, ps |-> <<>>])
              ELSE [ok |-> FALSE, ps |-> <<>>]
       c08 == IF exp.ok /\ SetOfSeq(m.perms) # SetOfSeq(exp.ps) THEN "C08_rights_differ_from_configured_role" ELSE "ok"
+      \* ---- C10 through the real server: an autolock group (marked by the pseudo-user "!autolock" in the oracle table) admits a
+      \* non-operator only while an operator is present -- "operator" being what the server itself last told each member it is
+      c10 == IF m.type = "joined" /\ m.kind = "join" /\ ~s.pipe /\ Has(s.exp, m.group) /\ Has(s.exp[m.group], "!autolock")
+                /\ "op" \notin SetOfSeq(m.perms)
+                /\ ~(\E x \in Members(s, m.group) : x # c /\ "op" \in Told(s, x))
+             THEN "C10_non_operator_admitted_to_autolock_group_without_operator" ELSE "ok"
       \* ---- C14: views
       v0 == Get(s1.view, c, <<>>)
       isuser == m.type = "user"
@@ -196,7 +202,7 @@ OnRecv(s, c, m) ==
       c15h == IF m.type = "chathistory" /\ c \in s.racing /\ Len(hp) > 0
                  /\ ~(m.seqno >= 0 /\ m.seqno = hp[Len(hp)].seqno + 1)
               THEN "C15_history_replay_not_an_in_order_run_of_the_chats" ELSE "ok"
-      bads == SelectSeq(<<c11, a3, a3e, c15, c15h, c08, c14>>, LAMBDA x : x # "ok")
+      bads == SelectSeq(<<c11, a3, a3e, c15, c15h, c08, c10, c14>>, LAMBDA x : x # "ok")
   IN [s |-> s3, v |-> IF bads = <<>> THEN "ok" ELSE bads[1]]
 
 \* a socket was closed by the server (c did not close it itself)
